@@ -139,7 +139,20 @@ impl WriteAheadLog {
         };
 
         let file = open_segment(&segment_path).await?;
-        let current_size = file.metadata().await.map_err(map_io_error)?.len();
+        let mut current_size = file.metadata().await.map_err(map_io_error)?.len();
+        // A crash can leave a partially written record at the end of the active
+        // segment. Appending after it would hide every later entry from the
+        // reader (which stops at the first incomplete record), so cut it off.
+        let valid_len = valid_prefix_len(&segment_path)?;
+        if valid_len < current_size {
+            warn!(
+                "Truncating torn tail of {:?}: {} -> {} bytes",
+                segment_path, current_size, valid_len
+            );
+            file.set_len(valid_len).await.map_err(map_io_error)?;
+            file.sync_all().await.map_err(map_io_error)?;
+            current_size = valid_len;
+        }
         let next_seq = match last_sequence_in_segments(&segments)? {
             Some(last_seq) => last_seq + 1,
             None => 1,
@@ -321,9 +334,19 @@ fn decode_header(header: &[u8; HEADER_LEN]) -> Result<(u64, u8, usize, u32)> {
 }
 
 fn read_entries_from_path(path: &Path) -> Result<Vec<WalEntry>> {
+    Ok(read_entries_and_valid_len(path)?.0)
+}
+
+/// Length in bytes of the longest prefix of the segment made of complete, valid records.
+fn valid_prefix_len(path: &Path) -> Result<u64> {
+    Ok(read_entries_and_valid_len(path)?.1)
+}
+
+fn read_entries_and_valid_len(path: &Path) -> Result<(Vec<WalEntry>, u64)> {
     let file = StdFile::open(path).map_err(map_io_error)?;
     let mut reader = BufReader::new(file);
     let mut entries = Vec::new();
+    let mut valid_len = 0u64;
     loop {
         let mut header = [0u8; HEADER_LEN];
         match read_exact_or_eof(&mut reader, &mut header) {
@@ -373,13 +396,14 @@ fn read_entries_from_path(path: &Path) -> Result<Vec<WalEntry>> {
             );
             break;
         }
+        valid_len += (HEADER_LEN + payload.len()) as u64;
         entries.push(WalEntry {
             seq,
             flags,
             payload,
         });
     }
-    Ok(entries)
+    Ok((entries, valid_len))
 }
 
 fn read_exact_or_eof<R: Read>(reader: &mut R, buffer: &mut [u8]) -> Result<bool> {
